@@ -380,7 +380,8 @@ M_POLICIES = ['permit(principal, action, resource) when { resource.owner == prin
               'permit(principal, action, resource) when { (if resource.public then resource.owner else principal).level >= 1 };', 'permit(principal, action, resource) when { context.via in Group::"g" && resource in [Folder::"f", Folder::"root"] };',
               'permit(principal, action, resource) when { [principal, resource.owner].contains(context.via) };', 'permit(principal, action, resource) when { {a: resource.owner, b: principal}.a.profile.nick like "a*" };',
               'permit(principal, action, resource) when { resource.readers.containsAny([principal, context.via]) };', 'permit(principal, action, resource) when { resource.readers.isEmpty() || principal.profile == resource.owner.profile };',
-              'permit(principal == User::"alice", action == Action::"view", resource) when { User::"carol".level > principal.level };']
+              'permit(principal == User::"alice", action == Action::"view", resource) when { User::"carol".level > principal.level };',
+              'permit(principal, action, resource) when { principal has manager };', 'forbid(principal, action, resource) unless { principal has manager || resource.owner has manager };']
 
 
 def manifest_cases():
